@@ -37,6 +37,20 @@
 (*                                 Changes the order of the fields only:   *)
 (*                                 the next dump / edit / deletion must be *)
 (*                                 explained by the same records           *)
+(*   refused kind, f, g            a call on the living object that was    *)
+(*                                 REFUSED (the recorder caught the        *)
+(*                                 exception): order_before / order_after  *)
+(*                                 with an absent reference / item or      *)
+(*                                 f = g, order_first / order_last /       *)
+(*                                 del obj[] / obj[] of an absent field,   *)
+(*                                 sort_fields(key) with a faulting key    *)
+(*                                 function, dump(fd) with a faulting fd,  *)
+(*                                 cls(faulting file / iterator); f, g =   *)
+(*                                 field index, 0 (a present field outside *)
+(*                                 the tables) or 99 (an absent one).      *)
+(*                                 Changes nothing: the next dump must be  *)
+(*                                 explained by the same records and must  *)
+(*                                 still write every present field         *)
 (* A dump is always of the living object, a parse always of a fresh object *)
 (* made from the dumped text; mutations change the living object, and the  *)
 (* next dump must be explained by its CURRENT records.                     *)
@@ -74,7 +88,7 @@ TInit == /\ tid \in 1..Len(Traces)
          /\ opt = [beh |-> Traces[tid].beh, set |-> Traces[tid].behset, shared |-> Traces[tid].beh]
          /\ shape = NoShape
          /\ para = <<>> /\ phase = "build" /\ widths = <<>> /\ text = <<>> /\ parsed = <<>> /\ res = "ok"
-         /\ nmut = 0 /\ hist = <<>> /\ cache = NoCache /\ fold = <<>>
+         /\ nmut = 0 /\ hist = <<>> /\ cache = NoCache /\ fold = <<>> /\ linked = <<>>
 
 \* obj = cls(text): the object holds what the text says; the text must be a rendering of recs.
 \* (The large predicates are written "P = TRUE": TLC then evaluates them as values instead of
@@ -85,6 +99,7 @@ Given(p, t) == /\ phase = "build" /\ para = <<>>
                /\ MExplains(Tables, cls, beh, p, t, FALSE) = TRUE
                /\ para' = p /\ text' = t /\ phase' = "dumped" /\ res' = "ok"
                /\ fold' = [f \in DOMAIN p |-> TRUE]
+               /\ linked' = [f \in DOMAIN p |-> TRUE]
                /\ UNCHANGED <<mode, cls, start, opt, shape, widths, parsed, nmut, hist, cache>>
 
 TStep == /\ l <= Len(Tr.events)
@@ -119,6 +134,8 @@ TStep == /\ l <= Len(Tr.events)
                  /\ SetBehFails
               \/ /\ e.op = "reorder"           \* sort_fields / order_first / order_last / order_before / order_after
                  /\ Reorder(e.kind, e.f, e.g)
+              \/ /\ e.op = "refused"           \* a call that was refused / failed through a caller-supplied object: nothing changes
+                 /\ Refused(e.kind, e.f, e.g)
          /\ l' = l + 1 /\ UNCHANGED tid
          /\ (Diag => PrintT(<<"AT", tid, l>>))
          /\ (l' = Len(Tr.events) + 1 => PrintT(<<"ACCEPTED", tid>>))
